@@ -134,6 +134,29 @@ def run(chk, w):
                 else:
                     chk.violation("C20-INIT", g.name, c.callee, c.loc(), "initial values are commanded through %s, not through a public high-level command (encoding may differ)" % c.callee)
 
+    # ---- INIT (cont.): whether an initial value is commanded must not depend on feedback state
+    from .c02 import _cond_loads
+    for ic in init_c:
+        g = P.functions[ic.callee]
+        for c in g.calls():
+            if not (c.callee in w.api and c.callee in P.functions and rules.call_reaches(P, c, set(S.constructors))):
+                continue
+            dep = None
+            for (gd_, truth) in rules.branch_conditions(g, c):
+                for l in _cond_loads(g, gd_["cond"]):
+                    ch = rules.field_chain(P, g, l["ptr"])
+                    if ch and any("_state" in x.split(".")[0] and not x.endswith(".id") for x in ch[-1:]):
+                        dep = (l, ch[-1])
+            if dep:
+                chk.violation("C20-INIT", g.name, "%s:conditional" % c.callee, c.loc(),
+                              "the initial-value command %s is issued only under a condition on tracked feedback state (%s, line %d): whether it is sent depends on what the node has reported so far, not on the configuration and the board's connection" % (c.callee, dep[1], dep[0].line))
+            else:
+                chk.ok("C20-INIT", 1)
+
+    # ---- CONN: the connected flag / node address that gate and direct every start-up command have fixed writers
+    from . import c15
+    c15.wmw_rule(chk, w, c15.node_roles(P), "C20-CONN")
+
     # ---- CONST: the configuration lists are not modified at run time
     chk.rule("C20-CONST", "the configured initial-value and feature lists are only modified by the parser and by the final free")
     MUT = {"free", "g_array_free", "g_array_remove_index", "g_array_remove_range", "g_array_set_size", "g_string_free", "g_array_append_vals", "g_array_remove_index_fast"}
